@@ -148,6 +148,24 @@ P_LOG = P_LIFE.with_(w_ops=dict(attachLogger=5, succeed=3, fail=2, plan_append=3
                      w_act=dict(change=6, changeWith=1, cancel=4, succeed=4, fail=2, plan_append=2), p_logger_at_construct=0.6,
                      w_meth=dict(guard=4, phase=4, life=1, plancb=1, query=1))
 
+
+# ---- small-scope exhaustive guard decisions (thorough tier of C02/C03/C04): every assignment of a decision to four guards
+DECISIONS = ["", "cancel", "change 0", "change 1", "change 2", "cancel ; change 0", "cancel ; change 1", "cancel ; change 2"]
+def guard_trees(tier):
+    if tier == "quick": return []
+    out = []
+    for L in (1, 2, 3):
+        c = cfgmod.make(n=3, head=0, manual=0, limit=L, plans=0, history=1, log="off")
+        guards = [("S0", "exitGuard"), ("S1", "entryGuard"), ("S2", "entryGuard"), ("S0", "entryGuard")]
+        for d in itertools.product(range(len(DECISIONS)), repeat=4):
+            if L != 2 and (d[0] + d[3]) % 3: continue            # the full 8^4 for limit 2, a third of it for limits 1 and 3
+            lines = [cfgmod.cfg_line(c)]
+            for (w, m), k in zip(guards, d):
+                if DECISIONS[k]: lines.append("tab * %s own %s  : %s" % (w, m, DECISIONS[k]))
+            lines += ["op construct 0 0 00", "op immChange 0 1", "op change 0 2", "op update 0", "op immChange 0 0"]
+            out.append((c, "\n".join(lines) + "\n", "enumerated"))
+    return out
+
 def life_cb(l): return l.kind == "cb" and l.meth in T.LIFE
 def guard_cb(l): return l.kind == "cb" and l.meth in T.GUARD
 
@@ -157,7 +175,7 @@ SPECS = {
     "C02": MachineSpec("C02", T.p_C02, P_REQ, cfgs_requests, lambda t: 100 if t == "quick" else 600,
                        lambda ls, c: has(ls, guard_cb) and has(ls, lambda l: l.kind == "did" and l.act[0].startswith("change"))),
     "C03": MachineSpec("C03", T.p_C03, P_REQ, cfgs_requests, lambda t: 100 if t == "quick" else 600,
-                       lambda ls, c: has(ls, lambda l: l.kind == "did" and l.act[0] == "cancel" and l.res == "ok")),
+                       lambda ls, c: has(ls, lambda l: l.kind == "did" and l.act[0] == "cancel" and l.res == "ok"), extra=guard_trees),
     "C04": MachineSpec("C04", T.p_C04, P_LIMIT, cfgs_limit, lambda t: 100 if t == "quick" else 500,
                        lambda ls, c: max([sum(1 for _, e in cl.ev if e.kind == "cb" and e.meth == "exitGuard") for cl in monitors.calls(ls)] or [0]) >= c["limit"]),
     "C05": MachineSpec("C05", T.p_C05, P_CYCLE, cfgs_cycle, lambda t: 80 if t == "quick" else 400,
